@@ -11,7 +11,7 @@ pub static MUTUAL: Scenario = Scenario {
     id: "C05",
     name: "c05-mutual-dial",
     run,
-    quick_runs: 6000,
+    quick_runs: 12_000,
     thorough_runs: 150_000,
     rule: "one run = two real Networks dialing each other with seeded dial offsets, per-datagram latencies, duplication, reordering and (in lossy configurations) loss until both dials returned; distinct = distinct order signature (sequence of dial results, NewPeer/LostPeer events per side, surviving origin); non-trivial = at least one fault fired or both dials overlapped in time",
     real: super::REAL_NET,
